@@ -84,17 +84,17 @@ impl TokenSink for HSink {
                 for a in attrs.iter() {
                     s.push_str(&format!(" {}={}", cps(&a.name.local), cps(&a.value)));
                 }
-                if kind == TagKind::StartTag {
-                    for (n, r) in self.resp.iter() {
-                        if **n == *name {
-                            res = match r {
-                                Resp::Plaintext => TokenSinkResult::Plaintext,
-                                Resp::Script => TokenSinkResult::Script(()),
-                                Resp::Encoding => TokenSinkResult::EncodingIndicator(StrTendril::from("x")),
-                                Resp::Raw(k) => TokenSinkResult::RawData(*k),
-                            };
-                            break;
-                        }
+                for (n, r) in self.resp.iter() {
+                    if **n == *name {
+                        let start = kind == TagKind::StartTag;
+                        res = match r {
+                            Resp::Plaintext if start => TokenSinkResult::Plaintext,
+                            Resp::Script if !start => TokenSinkResult::Script(()),
+                            Resp::Encoding if start => TokenSinkResult::EncodingIndicator(StrTendril::from("x")),
+                            Resp::Raw(k) if start => TokenSinkResult::RawData(*k),
+                            _ => TokenSinkResult::Continue,
+                        };
+                        break;
                     }
                 }
                 s
@@ -130,6 +130,29 @@ fn hstate(s: &str) -> hs::State {
         "RawData(ScriptData)" => RawData(ScriptData),
         "RawData(ScriptDataEscaped(Escaped))" => RawData(ScriptDataEscaped(Escaped)),
         "RawData(ScriptDataEscaped(DoubleEscaped))" => RawData(ScriptDataEscaped(DoubleEscaped)),
+        "RawLessThanSign(Rcdata)" => RawLessThanSign(Rcdata),
+        "RawLessThanSign(Rawtext)" => RawLessThanSign(Rawtext),
+        "RawLessThanSign(ScriptData)" => RawLessThanSign(ScriptData),
+        "RawLessThanSign(ScriptDataEscaped(Escaped))" => RawLessThanSign(ScriptDataEscaped(Escaped)),
+        "RawLessThanSign(ScriptDataEscaped(DoubleEscaped))" => RawLessThanSign(ScriptDataEscaped(DoubleEscaped)),
+        "RawEndTagOpen(Rcdata)" => RawEndTagOpen(Rcdata),
+        "RawEndTagOpen(Rawtext)" => RawEndTagOpen(Rawtext),
+        "RawEndTagOpen(ScriptData)" => RawEndTagOpen(ScriptData),
+        "RawEndTagOpen(ScriptDataEscaped(Escaped))" => RawEndTagOpen(ScriptDataEscaped(Escaped)),
+        "RawEndTagOpen(ScriptDataEscaped(DoubleEscaped))" => RawEndTagOpen(ScriptDataEscaped(DoubleEscaped)),
+        "RawEndTagName(Rcdata)" => RawEndTagName(Rcdata),
+        "RawEndTagName(Rawtext)" => RawEndTagName(Rawtext),
+        "RawEndTagName(ScriptData)" => RawEndTagName(ScriptData),
+        "RawEndTagName(ScriptDataEscaped(Escaped))" => RawEndTagName(ScriptDataEscaped(Escaped)),
+        "RawEndTagName(ScriptDataEscaped(DoubleEscaped))" => RawEndTagName(ScriptDataEscaped(DoubleEscaped)),
+        "ScriptDataEscapeStart(Escaped)" => ScriptDataEscapeStart(Escaped),
+        "ScriptDataEscapeStart(DoubleEscaped)" => ScriptDataEscapeStart(DoubleEscaped),
+        "ScriptDataEscapeStartDash" => ScriptDataEscapeStartDash,
+        "ScriptDataEscapedDash(Escaped)" => ScriptDataEscapedDash(Escaped),
+        "ScriptDataEscapedDash(DoubleEscaped)" => ScriptDataEscapedDash(DoubleEscaped),
+        "ScriptDataEscapedDashDash(Escaped)" => ScriptDataEscapedDashDash(Escaped),
+        "ScriptDataEscapedDashDash(DoubleEscaped)" => ScriptDataEscapedDashDash(DoubleEscaped),
+        "ScriptDataDoubleEscapeEnd" => ScriptDataDoubleEscapeEnd,
         "BeforeAttributeName" => BeforeAttributeName,
         "AttributeName" => AttributeName,
         "AfterAttributeName" => AfterAttributeName,
@@ -137,21 +160,39 @@ fn hstate(s: &str) -> hs::State {
         "AttributeValue(Unquoted)" => AttributeValue(Unquoted),
         "AttributeValue(SingleQuoted)" => AttributeValue(SingleQuoted),
         "AttributeValue(DoubleQuoted)" => AttributeValue(DoubleQuoted),
+        "AfterAttributeValueQuoted" => AfterAttributeValueQuoted,
+        "SelfClosingStartTag" => SelfClosingStartTag,
         "BogusComment" => BogusComment,
         "MarkupDeclarationOpen" => MarkupDeclarationOpen,
         "CommentStart" => CommentStart,
+        "CommentStartDash" => CommentStartDash,
         "Comment" => Comment,
+        "CommentLessThanSign" => CommentLessThanSign,
+        "CommentLessThanSignBang" => CommentLessThanSignBang,
+        "CommentLessThanSignBangDash" => CommentLessThanSignBangDash,
+        "CommentLessThanSignBangDashDash" => CommentLessThanSignBangDashDash,
+        "CommentEndDash" => CommentEndDash,
         "CommentEnd" => CommentEnd,
+        "CommentEndBang" => CommentEndBang,
         "Doctype" => Doctype,
         "BeforeDoctypeName" => BeforeDoctypeName,
         "DoctypeName" => DoctypeName,
         "AfterDoctypeName" => AfterDoctypeName,
         "AfterDoctypeKeyword(Public)" => AfterDoctypeKeyword(Public),
         "AfterDoctypeKeyword(System)" => AfterDoctypeKeyword(System),
+        "BeforeDoctypeIdentifier(Public)" => BeforeDoctypeIdentifier(Public),
+        "BeforeDoctypeIdentifier(System)" => BeforeDoctypeIdentifier(System),
+        "DoctypeIdentifierDoubleQuoted(Public)" => DoctypeIdentifierDoubleQuoted(Public),
+        "DoctypeIdentifierDoubleQuoted(System)" => DoctypeIdentifierDoubleQuoted(System),
+        "DoctypeIdentifierSingleQuoted(Public)" => DoctypeIdentifierSingleQuoted(Public),
+        "DoctypeIdentifierSingleQuoted(System)" => DoctypeIdentifierSingleQuoted(System),
+        "AfterDoctypeIdentifier(Public)" => AfterDoctypeIdentifier(Public),
+        "AfterDoctypeIdentifier(System)" => AfterDoctypeIdentifier(System),
+        "BetweenDoctypePublicAndSystemIdentifiers" => BetweenDoctypePublicAndSystemIdentifiers,
         "BogusDoctype" => BogusDoctype,
         "CdataSection" => CdataSection,
-        "ScriptDataEscapeStart(Escaped)" => ScriptDataEscapeStart(Escaped),
-        "ScriptDataDoubleEscapeEnd" => ScriptDataDoubleEscapeEnd,
+        "CdataSectionBracket" => CdataSectionBracket,
+        "CdataSectionEnd" => CdataSectionEnd,
         _ => panic!("state {}", s),
     }
 }
@@ -187,7 +228,7 @@ impl xt::TokenSink for XSink {
                 }
                 for (n, r) in self.resp.iter() {
                     if *n == name {
-                        if let Resp::Script = r {
+                        if let (Resp::Script, xt::TagKind::EndTag) = (r, t.kind) {
                             res = xt::ProcessResult::Script(());
                         }
                         break;
@@ -207,13 +248,60 @@ impl xt::TokenSink for XSink {
     }
 }
 fn xstate(s: &str) -> xml5ever::tokenizer::states::XmlState {
+    use xml5ever::tokenizer::states::AttrValueKind::*;
+    use xml5ever::tokenizer::states::DoctypeKind::*;
     use xml5ever::tokenizer::states::XmlState::*;
     match s {
         "Data" => Data,
-        "Cdata" => Cdata,
-        "Comment" => Comment,
         "TagState" => TagState,
+        "EndTagState" => EndTagState,
+        "EndTagName" => EndTagName,
+        "EndTagNameAfter" => EndTagNameAfter,
         "Pi" => Pi,
+        "PiTarget" => PiTarget,
+        "PiTargetAfter" => PiTargetAfter,
+        "PiData" => PiData,
+        "PiAfter" => PiAfter,
+        "MarkupDecl" => MarkupDecl,
+        "CommentStart" => CommentStart,
+        "CommentStartDash" => CommentStartDash,
+        "Comment" => Comment,
+        "CommentLessThan" => CommentLessThan,
+        "CommentLessThanBang" => CommentLessThanBang,
+        "CommentLessThanBangDash" => CommentLessThanBangDash,
+        "CommentLessThanBangDashDash" => CommentLessThanBangDashDash,
+        "CommentEnd" => CommentEnd,
+        "CommentEndDash" => CommentEndDash,
+        "CommentEndBang" => CommentEndBang,
+        "Cdata" => Cdata,
+        "CdataBracket" => CdataBracket,
+        "CdataEnd" => CdataEnd,
+        "TagName" => TagName,
+        "TagEmpty" => TagEmpty,
+        "TagAttrNameBefore" => TagAttrNameBefore,
+        "TagAttrName" => TagAttrName,
+        "TagAttrNameAfter" => TagAttrNameAfter,
+        "TagAttrValueBefore" => TagAttrValueBefore,
+        "TagAttrValue(Unquoted)" => TagAttrValue(Unquoted),
+        "TagAttrValue(SingleQuoted)" => TagAttrValue(SingleQuoted),
+        "TagAttrValue(DoubleQuoted)" => TagAttrValue(DoubleQuoted),
+        "Doctype" => Doctype,
+        "BeforeDoctypeName" => BeforeDoctypeName,
+        "DoctypeName" => DoctypeName,
+        "AfterDoctypeName" => AfterDoctypeName,
+        "AfterDoctypeKeyword(Public)" => AfterDoctypeKeyword(Public),
+        "AfterDoctypeKeyword(System)" => AfterDoctypeKeyword(System),
+        "BeforeDoctypeIdentifier(Public)" => BeforeDoctypeIdentifier(Public),
+        "BeforeDoctypeIdentifier(System)" => BeforeDoctypeIdentifier(System),
+        "DoctypeIdentifierDoubleQuoted(Public)" => DoctypeIdentifierDoubleQuoted(Public),
+        "DoctypeIdentifierDoubleQuoted(System)" => DoctypeIdentifierDoubleQuoted(System),
+        "DoctypeIdentifierSingleQuoted(Public)" => DoctypeIdentifierSingleQuoted(Public),
+        "DoctypeIdentifierSingleQuoted(System)" => DoctypeIdentifierSingleQuoted(System),
+        "AfterDoctypeIdentifier(Public)" => AfterDoctypeIdentifier(Public),
+        "AfterDoctypeIdentifier(System)" => AfterDoctypeIdentifier(System),
+        "BetweenDoctypePublicAndSystemIdentifiers" => BetweenDoctypePublicAndSystemIdentifiers,
+        "BogusDoctype" => BogusDoctype,
+        "BogusComment" => BogusComment,
         _ => panic!("xml state {}", s),
     }
 }
@@ -255,7 +343,7 @@ fn run_case(line: &str) -> String {
                     }
                     match tok.feed(&queue) {
                         TokenizerResult::Done => {
-                            log.push("D".into());
+                            log.push(if queue.is_empty() { "D".into() } else { "D-QUEUE-NOT-EMPTY".into() });
                             break;
                         },
                         TokenizerResult::Script(_) => {
@@ -295,7 +383,7 @@ fn run_case(line: &str) -> String {
                     }
                     match tok.feed(&queue) {
                         TokenizerResult::Done => {
-                            log.push("D".into());
+                            log.push(if queue.is_empty() { "D".into() } else { "D-QUEUE-NOT-EMPTY".into() });
                             break;
                         },
                         TokenizerResult::Script(_) => {
